@@ -68,7 +68,7 @@ fn crate_written(i: u32, ic: u8, face: Face, big: bool) -> Vec<u8> {
             tiles.push(Tile { id: k * 2 + r.below(2), c: Cont { k: 0, seed: (k % 3) as u32, len: 1 + (k % 4) as u32 } });
         }
     }
-    let a = Archive { tiles, meta: Meta { kind: 1, seed: 9, n: 1 }, set: Settings::plain(ic) };
+    let a = Archive { tiles, meta: Meta { kind: 1, seed: 9, n: 1 }, set: Settings::plain(ic), gen: None };
     let mut ctx = Ctx::default();
     crate::scen_life::write_archive(&a, face, &Sched::plain(), 1, &mut ctx, "C08").expect("base archive written by the crate")
 }
@@ -171,13 +171,13 @@ fn boundary(r: &mut Rng, len: u64) -> u64 {
         4 => 128,
         5 => len.wrapping_sub(1),
         6 => len,
-        7 => len + 1,
+        7 => len.wrapping_add(1),
         8 => 1 << 31,
         9 => (1 << 32) - 1,
         10 => 1 << 32,
         11 => 1 << 63,
         12 => u64::MAX,
-        13 => u64::MAX - len,
+        13 => u64::MAX.wrapping_sub(len),
         14 => u64::MAX - 1,
         _ => r.next_u64() >> r.below(64),
     }
